@@ -15,7 +15,7 @@ CONSTANTS
   Buds = {0}
   NSAs = {FALSE}
   OptSets <- OptsKeysOn
-  Budgets = {2, 5}
+  Budgets = {3}
 VIEW MCView
 INVARIANTS TypeOK AtMostOnce ExactlyOnce Unbiased KeptRowsFactorGE1 NoSampleAgentKept SameFactorInLeaf FitsNothingSampled FairShare FixedWithinBudget FairShareRemaining FitIsJustified Monotone KeptWithinBudget QuotaWithinTotal QuotaProportional QuotaFitIsSize QuotaWithinTotalAnyRounding ExportDone
 CHECK_DEADLOCK FALSE
